@@ -905,6 +905,17 @@ class Generator:
         s_ = rng.choice(cands)
         t_ = m.tables[s_.m.same_as]
         l, r = (t_, s_) if rng.random() < 0.5 else (s_, t_)
+        if rng.random() < 0.35:
+            # three-way (and deeper) self-joins: join an existing join result that already contains
+            # the origin with one more re-rooted copy of it
+            big = [
+                p
+                for p in (m.tables[t] for t in self.tables())
+                if p.m.n_join >= 1 and (t_.id in p.m.origins) and not (p.m.origins & s_.m.origins) and not (set(p.m.scope) & set(s_.m.scope)) and not p.m.grouping and not s_.m.grouping
+            ]
+            if big:
+                l, r = rng.choice(big), s_
+                m.note("selfjoin_three_way")
         if not (set(l.real) & set(r.real)):
             return None
         # equality on a pair of corresponding visible int columns (same name on both sides)
